@@ -324,9 +324,10 @@ def sigs(effs):
     return {"%s@%s:%s" % (k, loc, amt) for k, loc, amt, e in effs}
 
 
-def run(ctx, crate):
+def rule_wrap_effects(ctx, crate):
+    """R-WRAP-PASSTHROUGH / R-WRAP-EFFECT / R-WRAP-SIBLINGS over every adaptor method (shared with C05: the position an adaptor
+    reports goes through the rate-limited setters `inc`/`set_position`, never through `update`, which bypasses the 1 ms limiter - seed C05o)."""
     cfg = crate.config
-    K.rule_no_unsafe(ctx, crate)
     methods = wrapper_methods(crate)
     floor = 14
     if "tokio" in crate.features:
@@ -347,6 +348,13 @@ def run(ctx, crate):
         rows[rk] = (m, effs)
         rule_effect(ctx, crate, m, tr, name, effs)
     rule_siblings(ctx, crate, rows)
+    return methods, rows
+
+
+def run(ctx, crate):
+    cfg = crate.config
+    K.rule_no_unsafe(ctx, crate)
+    methods, rows = rule_wrap_effects(ctx, crate)
     rule_constructors(ctx, crate)
     rule_rayon_shares_bar(ctx, crate)
     rule_wrapper_impl_bounds(ctx, crate)
